@@ -345,6 +345,11 @@ func (a *App) handleDefault(spokfile *file.SpokFile, runner shell.Runner) error 
 // clean is the default implementation of --clean if the user has
 // not defined a clean task in the spokfile itself.
 func (a *App) clean(spokfile *file.SpokFile) error {
+	// Glob outputs are only known by pattern until they are expanded
+	if err := spokfile.ExpandGlobs(); err != nil {
+		return err
+	}
+
 	var toRemove []string
 	for _, task := range spokfile.Tasks {
 		// Gather up all the declared file outputs
@@ -382,6 +387,11 @@ func (a *App) clean(spokfile *file.SpokFile) error {
 				}
 			}
 			toRemove = append(toRemove, resolved)
+		}
+
+		// And whatever currently matches the glob outputs
+		for _, pattern := range task.GlobOutputs {
+			toRemove = append(toRemove, spokfile.Globs[pattern]...)
 		}
 	}
 
